@@ -342,8 +342,25 @@ def rule_r4(chk, prog):
     g = m.func('Producer.generate')
     gw = 'strategy_hierarchical.Producer.generate'
     gcfg = cfg_of(g)
+    from ..astutil import expand_locals
     fl = [l for l in walk_no_nested(g) if isinstance(l, ast.For)]
-    ok = len(fl) == 1 and call_name(fl[0].iter) == 'nodes.bfs'
+    it = expand_locals(g, fl[0].iter) if len(fl) == 1 else None
+    cvar, first = None, None
+    if it is not None and isinstance(it, ast.Call) and call_name(
+            it) == 'enumerate' and it.args and isinstance(
+                fl[0].target, ast.Tuple) and len(
+                    fl[0].target.elts) == 2 and isinstance(
+                        fl[0].target.elts[0], ast.Name):
+        # for count, node in enumerate(bfs(...), start=S)
+        st_ = kw(it, 'start') or (it.args[1] if len(it.args) > 1 else None)
+        if st_ is None:
+            first = 0
+        elif isinstance(st_, ast.Constant) and isinstance(st_.value, int):
+            first = st_.value
+        cvar = fl[0].target.elts[0].id
+        it = expand_locals(g, it.args[0])
+    ok = len(fl) == 1 and isinstance(it, ast.Call) and call_name(it) in (
+        'nodes.bfs', 'bfs')
     chk.check('C02.R4', gw, 'BFS over the input', ok,
               'generate() does not walk the input in BFS order',
               loc=m.loc(g), nontrivial=True)
@@ -356,61 +373,98 @@ def rule_r4(chk, prog):
         chk.check('C02.R4', gw, 'yield from __mutate_node', ok2,
                   'generate() does not delegate every node to '
                   '__mutate_node', loc=m.loc(g), nontrivial=True)
+        explicit = cvar is None
+        if explicit:
+            incv = {unparse(n.target) for n in ast.walk(loop)
+                    if isinstance(n, ast.AugAssign)
+                    and isinstance(n.op, ast.Add) and is_const(n.value, 1)
+                    and isinstance(n.target, ast.Name)}
+            if len(incv) != 1:
+                raise AnalysisError(
+                    f'{m.loc(loop)}: node counter of generate() not '
+                    f'recognised (incremented names {sorted(incv)})')
+            cvar = incv.pop()
         for p in loop_body_paths(gcfg, loop):
             aborted = any(t.endswith('.is_set()') and pol
                           for (t, pol) in p.facts)
             incs = [n.ast for n in p.nodes[:-1] if n.kind == 'stmt'
                     and isinstance(n.ast, ast.AugAssign)
-                    and unparse(n.ast.target) == 'count'
+                    and unparse(n.ast.target) == cvar
                     and is_const(n.ast.value, 1)]
+            others = [n.ast for n in p.nodes[:-1] if n.kind == 'stmt'
+                      and isinstance(n.ast, (ast.Assign, ast.AugAssign))
+                      and cvar in [unparse(t_) for t_ in (
+                          n.ast.targets if isinstance(n.ast, ast.Assign)
+                          else [n.ast.target])] and n.ast not in incs]
             if p.end is ghead and not aborted:
-                chk.check('C02.R4', gw, f'{describe_path(p)}: count += 1',
-                          len(incs) == 1, 'the node counter is not advanced '
+                want = 1 if explicit else 0
+                chk.check('C02.R4', gw, f'{describe_path(p)}: node counter',
+                          len(incs) == want and not others,
+                          'the node counter is not advanced '
                           'exactly once per node', loc=m.loc(loop),
                           nontrivial=True)
             if p.end is not ghead and not aborted:
                 chk.check('C02.R4', gw, f'{describe_path(p)}: early exit',
                           False, 'the walk stops early although the abort '
                           'flag is clear', loc=m.loc(loop), nontrivial=True)
-        # the guard: linear in skip and count, true for skip<=0, count>=1
+        if explicit:
+            # count starts at 0 and is incremented before the guard
+            init = [st for st in walk_no_nested(g)
+                    if isinstance(st, ast.Assign)
+                    and unparse(st.targets[0]) == cvar]
+            if len(init) == 1 and isinstance(
+                    init[0].value, ast.Constant) and isinstance(
+                        init[0].value.value, int):
+                first = init[0].value.value + 1
+            chk.check('C02.R4', gw, 'node counter initialised once',
+                      first is not None, 'unexpected initial count',
+                      loc=m.loc(g))
+        # the guard: linear in skip and count, true for skip<=0 and the
+        # first node's number
         guards = [i for i in ast.walk(loop) if isinstance(i, ast.If)
                   and any(isinstance(y, ast.YieldFrom)
                           for b in i.body for y in ast.walk(b))]
-        ok3 = len(guards) == 1
+        ok3 = len(guards) == 1 and first is not None
         msg = 'the delegation to __mutate_node is not under one guard'
         if ok3:
             t = guards[0].test
             ok3 = False
-            msg = f'guard "{unparse(t)}" is not of the form skip+a < count+b'
+            msg = (f'guard "{unparse(t)}" is not of the form skip+a < '
+                   f'{cvar}+b')
+            if explicit:
+                # the increment must precede the guard
+                gnode = gcfg.node_of.get(id(guards[0]))
+                marks = {gcfg.node_of[id(n)]: 'inc' for n in ast.walk(loop)
+                         if isinstance(n, ast.AugAssign)
+                         and unparse(n.target) == cvar
+                         and id(n) in gcfg.node_of}
+                IN_, _ = gcfg.dominators_facts(marks)
+                if 'inc' not in (IN_.get(gnode) or ()):
+                    first -= 1
             if isinstance(t, ast.Compare) and len(t.ops) == 1 and isinstance(
                     t.ops[0], (ast.Lt, ast.LtE, ast.Gt, ast.GtE)):
                 try:
-                    l = linform(t.left, {'skip', 'count'})
-                    r = linform(t.comparators[0], {'skip', 'count'})
+                    l = linform(t.left, {'skip', cvar})
+                    r = linform(t.comparators[0], {'skip', cvar})
                     if isinstance(t.ops[0], (ast.Gt, ast.GtE)):
                         l, r = r, l
                     strict = isinstance(t.ops[0], (ast.Lt, ast.Gt))
-                    # r - l > 0 (or >= 0) must hold for skip<=0, count>=1
+                    # r - l > 0 (or >= 0) must hold for skip<=0 and the
+                    # number of the first node
                     d = {k: r.get(k, 0) - l.get(k, 0)
                          for k in set(l) | set(r)}
-                    cs, cc, c0 = d.get('skip', 0), d.get('count', 0), d.get(
+                    cs, cc, c0 = d.get('skip', 0), d.get(cvar, 0), d.get(
                         1, 0)
-                    worst = cc * 1 + c0  # skip = 0, count = 1
+                    worst = cc * first + c0  # skip = 0, first node
                     ok3 = cs <= 0 and cc >= 1 and (worst > 0 if strict
                                                    else worst >= 0)
                     msg = (f'with skip <= 0 the guard "{unparse(t)}" rejects '
-                           'the first node(s): they are never mutated in '
-                           'the final sweep')
+                           f'the first node(s) (numbered from {first}): they '
+                           'are never mutated in the final sweep')
                 except AnalysisError:
                     pass
         chk.check('C02.R4', gw, 'guard admits every node when skip <= 0',
                   ok3, msg, loc=m.loc(g), nontrivial=True)
-        # count starts at 0
-        init = [st for st in walk_no_nested(g) if isinstance(st, ast.Assign)
-                and unparse(st.targets[0]) == 'count']
-        chk.check('C02.R4', gw, 'count starts at 0', len(init) == 1
-                  and is_const(init[0].value, 0), 'unexpected initial count',
-                  loc=m.loc(g))
     # Consumer.check returns failure (not success) on abort / exception
     # (shared with C05.R4)
 
